@@ -1,11 +1,219 @@
-//! C19 — (not built yet)
-#![allow(unused_imports, unused_variables, dead_code)]
+//! C19 — truncated documents never yield fabricated data (aggregate check).
+//!
+//! Model-backed ops come from the parser slices: `tcut` (text tape, c01.rs), `bcut` (binary lexer,
+//! c08.rs).  This module adds the implementation-only cut oracles for the remaining parsers and
+//! deserializers named by the property:
+//!   x-cutbin <hex> <b0,b1,…>   every prefix of a well-formed binary document through the tape parser
+//!                              (optimised + reference), the on-demand and the streaming deserializer;
+//!                              <b…> = byte offsets at which a top-level field (or ghost) is complete
+//!   x-cuttext <hex>            every prefix of a well-formed text document through tape, slice reader,
+//!                              buffered reader, tape deserializer and reader deserializer
 use crate::common::*;
+use crate::docgen::{self, *};
+use crate::show;
+use crate::tyseed::{parse_ty, TySeed};
+use jomini::binary::{BinaryTapeParser, FailedResolveStrategy, TokenReader as BinReader};
+use jomini::text::{TokenReader as TextReader};
+use jomini::{BinaryDeserializer, BinaryTape, TextDeserializer, TextTape};
+use serde::de::DeserializeSeed;
 
-pub fn gen(g: &mut Gen) {}
+/// top-level entries of a `{k=v,…}` Val string (splits at depth 0)
+fn top_entries(v: &str) -> Option<Vec<(String, String)>> {
+    let inner = v.strip_prefix('{')?.strip_suffix('}')?;
+    let mut out = vec![];
+    let (mut depth, mut start) = (0i32, 0usize);
+    let b = inner.as_bytes();
+    let mut parts = vec![];
+    for i in 0..b.len() {
+        match b[i] { b'{' | b'[' | b'(' => depth += 1, b'}' | b']' | b')' => depth -= 1, b',' if depth == 0 => { parts.push(&inner[start..i]); start = i + 1; } _ => {} }
+    }
+    if start < b.len() { parts.push(&inner[start..]); }
+    for p in parts {
+        let eq = p.find('=')?;
+        out.push((p[..eq].to_string(), p[eq + 1..].to_string()));
+    }
+    Some(out)
+}
+
+/// prefix result consistent with the full result: entries that are present in both and differ: at
+/// most one, and it must be the last entry the prefix produced
+fn consistent_entries(pre: &[(String, String)], full: &[(String, String)]) -> Result<(), String> {
+    if pre.len() > full.len() { return Err(format!("prefix yields {} entries, full document {}", pre.len(), full.len())); }
+    for (i, (k, v)) in pre.iter().enumerate() {
+        let last = i + 1 == pre.len();
+        if full[i].0 != *k && !last { return Err(format!("entry {} key {} differs from full {}", i, k, full[i].0)); }
+        if (full[i].0 != *k || full[i].1 != *v) && !last { return Err(format!("completed entry {} ({}) differs: prefix {} full {}", i, k, v, full[i].1)); }
+    }
+    Ok(())
+}
+
+fn bin_any(d: &[u8], path: usize) -> Result<String, String> {
+    let res = super::c05::resolver();
+    let ty = parse_ty("map(any)").unwrap();
+    let mut b = BinaryDeserializer::builder_flavor(super::c05::Flavor);
+    b.on_failed_resolve(FailedResolveStrategy::Stringify);
+    match path {
+        0 => { let tape = BinaryTape::from_slice(d).map_err(|e| e.to_string())?; let de = b.from_tape(&tape, &res); TySeed(&ty).deserialize(&de).map_err(|e| e.to_string()) }
+        1 => { let mut de = b.from_slice(d, &res); TySeed(&ty).deserialize(&mut de).map_err(|e| e.to_string()) }
+        _ => { b.reader_config(BinReader::builder().buffer_len(if path == 2 { 70000 } else { 64 })); let mut de = b.from_reader(d, &res); TySeed(&ty).deserialize(&mut de).map_err(|e| e.to_string()) }
+    }
+}
+
+fn text_fields(d: &[u8]) -> Result<Vec<(String, String)>, String> {
+    // top-level fields through the real DOM: (key bytes + operator, rendering of the value's tokens)
+    let tape = TextTape::from_slice(d).map_err(|e| e.to_string())?;
+    let toks = tape.tokens();
+    let base = toks.as_ptr() as usize;
+    let sz = std::mem::size_of::<jomini::TextToken>();
+    let r = tape.windows1252_reader();
+    let mut out = vec![];
+    let mut it = r.fields();
+    for (k, op, v) in it.by_ref() {
+        let vi = (v.token() as *const _ as usize - base) / sz;
+        let n = v.tokens_len();
+        let val = show::text_tape(&toks[vi..(vi + n + 1).min(toks.len())]);
+        out.push((format!("{}{}", hex(k.read_scalar().as_bytes()), op.map(|o| o.symbol()).unwrap_or("")), val));
+    }
+    let rem = it.remainder();
+    if rem.len() > 0 { out.push(("remainder".to_string(), format!("{}", rem.len()))); }
+    Ok(out)
+}
 
 pub fn exec(w: &[&str], obs: &mut Obs) -> Option<String> {
-    None
+    let case = w.join(" ");
+    match w {
+        ["x-cutbin", h, bounds] => {
+            let d = unhex(h)?;
+            let bounds: Vec<usize> = if *bounds == "-" { vec![] } else { bounds.split(',').filter_map(|x| x.parse().ok()).collect() };
+            let full: Vec<Option<Vec<(String, String)>>> = (0..4).map(|p| bin_any(&d, p).ok().and_then(|v| top_entries(&v))).collect();
+            let full_tape = BinaryTape::from_slice(&d).ok().map(|t| show::bin_tape(t.tokens()));
+            let mut oks = 0;
+            for k in 0..d.len() {
+                let pre = &d[..k];
+                // a single stray byte after a complete field is ignored by the tape parser and the on-demand
+                // deserializer (documented quirk: it is inside the next token's id, not inside a payload)
+                let at_boundary = k == 0 || bounds.contains(&k) || k == 1 || bounds.contains(&(k - 1));
+                // tape parsers
+                let t1 = BinaryTape::from_slice(pre).ok().map(|t| show::bin_tape(t.tokens()));
+                let mut t = BinaryTape::default();
+                let t2 = BinaryTapeParser.parse_slice_into_tape_unoptimized(pre, &mut t).ok().map(|_| show::bin_tape(t.tokens()));
+                for (name, r) in [("tape", &t1), ("tape-reference", &t2)] {
+                    match r {
+                        Some(toks) => {
+                            oks += 1;
+                            if !at_boundary { obs.violation("cut-accepted-binary", &case, &format!("{}: prefix of {} bytes is inside a field but parses: {}", name, k, toks)); }
+                            else if let Some(ft) = &full_tape {
+                                let pt = if toks == "-" { "" } else { toks.as_str() };
+                                if !(ft.starts_with(pt) && (pt.len() == ft.len() || pt.is_empty() || ft.as_bytes()[pt.len()] == b',')) {
+                                    obs.violation("cut-tape-not-prefix", &case, &format!("{}: prefix {} gives {}, full {}", name, k, toks, ft));
+                                }
+                            }
+                        }
+                        None => if at_boundary { obs.violation("cut-boundary-rejected", &case, &format!("{}: prefix {} ends at a field boundary but is rejected", name, k)); }
+                    }
+                }
+                // deserializers (dynamic capture of the top level as a map)
+                for p in 0..4 {
+                    match bin_any(pre, p) {
+                        Ok(v) => {
+                            if !at_boundary { obs.violation("cut-accepted-binary-de", &case, &format!("path {}: prefix {} inside a field deserializes to {}", p, k, v)); }
+                            else if let (Some(pe), Some(fe)) = (top_entries(&v), &full[p]) {
+                                if pe.len() > fe.len() || pe.iter().zip(fe.iter()).any(|(a, b)| a != b) {
+                                    obs.violation("cut-fabricated-binary-de", &case, &format!("path {}: prefix {} gives {} which is not a prefix of the full result", p, k, v));
+                                }
+                            }
+                        }
+                        Err(_) => {}
+                    }
+                }
+            }
+            obs.count("cutbin");
+            Some(format!("ok {}", oks))
+        }
+        ["x-cuttext", h] => {
+            let d = unhex(h)?;
+            let full = match text_fields(&d) { Ok(f) => f, Err(_) => return Some("full-rejected".into()) };
+            let full_toks: Vec<String> = { let mut r = TextReader::from_slice(&d); let mut v = vec![]; while let Ok(Some(t)) = r.next() { v.push(show::text_lex_tok(&t)); } v };
+            let ty = parse_ty("map(ign)").unwrap();
+            let de_keys = |d: &[u8], reader: bool| -> Option<Vec<(String, String)>> {
+                let v = if reader { let mut de = TextDeserializer::from_windows1252_reader(TextReader::new(d)); TySeed(&ty).deserialize(&mut de).ok()? }
+                        else { let de = TextDeserializer::from_windows1252_slice(d).ok()?; TySeed(&ty).deserialize(&de).ok()? };
+                top_entries(&v)
+            };
+            let full_de = [de_keys(&d, false), de_keys(&d, true)];
+            let mut oks = 0;
+            for k in 0..d.len() {
+                let pre = &d[..k];
+                if let Ok(pf) = text_fields(pre) {
+                    oks += 1;
+                    if let Err(e) = consistent_entries(&pf, &full) { obs.violation("cut-fabricated-text-tape", &case, &format!("prefix {}: {}", k, e)); }
+                }
+                // token readers: every token but the last must be a token of the full stream at the same index
+                for cap in [0usize, 16] {
+                    let mut toks = vec![];
+                    if cap == 0 { let mut r = TextReader::from_slice(pre); while let Ok(Some(t)) = r.next() { toks.push(show::text_lex_tok(&t)); } }
+                    else { let mut r = TextReader::builder().buffer_len(64).build(pre); while let Ok(Some(t)) = r.next() { toks.push(show::text_lex_tok(&t)); } }
+                    for (i, t) in toks.iter().enumerate() {
+                        if i + 1 < toks.len() && full_toks.get(i) != Some(t) {
+                            obs.violation("cut-fabricated-text-token", &case, &format!("prefix {} cap {}: token {} = {} but full stream has {:?}", k, cap, i, t, full_toks.get(i)));
+                            break;
+                        }
+                    }
+                    if let (Some(last), Some(f)) = (toks.last(), full_toks.get(toks.len().wrapping_sub(1))) {
+                        // the last token may be cut short but never extended / of another kind with foreign bytes
+                        let (lk, lb) = last.split_once(':').unwrap_or((last.as_str(), ""));
+                        let (fk, fb) = f.split_once(':').unwrap_or((f.as_str(), ""));
+                        let in_bom = d.starts_with(&[0xef, 0xbb, 0xbf]) && k < 3;
+                        if !in_bom && lk == fk && (lk == "U" || lk == "Q") && !fb.starts_with(lb.trim_end_matches('-')) && lb != "-" {
+                            obs.violation("cut-extended-text-token", &case, &format!("prefix {} cap {}: last token {} is not a prefix of {}", k, cap, last, f));
+                        }
+                    }
+                }
+                for (i, reader) in [false, true].iter().enumerate() {
+                    if let (Some(pe), Some(fe)) = (de_keys(pre, *reader), &full_de[i]) {
+                        let pk: Vec<(String, String)> = pe.iter().map(|(k, _)| (k.clone(), String::new())).collect();
+                        let fk: Vec<(String, String)> = fe.iter().map(|(k, _)| (k.clone(), String::new())).collect();
+                        if let Err(e) = consistent_entries(&pk, &fk) { obs.violation("cut-fabricated-text-de", &case, &format!("{} path, prefix {}: {}", if *reader { "reader" } else { "tape" }, k, e)); }
+                    }
+                }
+            }
+            obs.count("cuttext");
+            Some(format!("ok {}", oks))
+        }
+        _ => None,
+    }
+}
+
+pub fn gen_de_cut(g: &mut Gen) {
+    let n = g.budget(250, 6000);
+    for _ in 0..n {
+        // binary: render field by field to know where top-level fields (and ghosts) end
+        let doc = docgen::gen_doc(&mut g.rng, &DocCfg { ghosts: true, max_fields: 4, ..DocCfg::shared() });
+        let mut bytes = vec![];
+        let mut bounds = vec![];
+        for (fi, f) in doc.fields.iter().enumerate() {
+            // (a document that STARTS with `{}` is refused by the tape parser by design)
+            for _ in 0..(if fi == 0 { 0 } else { f.ghosts }) { bytes.extend_from_slice(&[3, 0, 4, 0]); bounds.push(bytes.len()); }
+            let one = Doc { fields: vec![Field { ghosts: 0, ..f.clone() }] };
+            bytes.extend(docgen::render_binary(&mut g.rng, &BinCfg::default(), &one));
+            bounds.push(bytes.len());
+        }
+        if bytes.len() <= 300 && !bytes.is_empty() {
+            let b = bounds.iter().map(|x| x.to_string()).collect::<Vec<_>>().join(",");
+            g.emit(format!("x-cutbin {} {}", hex(&bytes), if b.is_empty() { "-".to_string() } else { b }));
+        }
+        let doc = docgen::gen_doc(&mut g.rng, &DocCfg { max_fields: 4, ..DocCfg::save_style() });
+        let lex = docgen::lexemes(&doc);
+        let bytes = if g.rng.chance(1, 2) { docgen::render_canonical(&lex) } else { docgen::render_layout(&mut g.rng, &LayoutCfg { max_trailing: 2, max_left_pad: 2, ..LayoutCfg::reader_safe() }, &lex) };
+        if bytes.len() <= 300 { g.emit(format!("x-cuttext {}", hex(&bytes))); }
+    }
+    g.count("de-cut-every-prefix");
+}
+
+pub fn gen(g: &mut Gen) {
+    super::c01::gen_cut(g);
+    super::c08::gen_cut(g);
+    gen_de_cut(g);
 }
 
 pub fn tables() -> String {
